@@ -61,7 +61,7 @@ for d in sorted(glob.glob(os.path.join(root, "seeded", "C*-r*"))):
     stats["own"] += bool(own)
     rows.append((name, ", ".join(os.path.basename(x) for x in meta.get("files", [])), meta["summary"][:140].replace("|", "/").replace("\n", " "),
                  (",".join(first) if first else ("(own check: missed)" if "first_run_own_check" in meta else "-")) if first is not None else "-",
-                 ",".join(full) if full is not None else ("own check only" + ("; other checks tried: " + ",".join(meta["also_caught_by"]) if meta.get("also_caught_by") else "")),
+                 ",".join(full) if full is not None else ("own check only" + ("; also caught by: " + ",".join(meta["also_caught_by"]) if meta.get("also_caught_by") else "")),
                  own_txt, tests.split(" in ")[0], note.replace("|", "/")))
 
 with open(os.path.join(root, "seeded", "RESULTS.md"), "w") as out:
